@@ -72,7 +72,15 @@ type Server struct {
 
 // Serves the connection once we accepted it
 func (server *Server) serveConn(conn net.Conn) {
-	defer recover()
+	// A panic while serving one connection (raised, for example, by a TLS
+	// config callback or a ConnState hook) must not take the process down.
+	// Note that a bare "defer recover()" does not stop a panic: recover only
+	// works when called directly by the deferred function.
+	defer func() {
+		if r := recover(); r != nil {
+			server.logf("panic serving %s: %v", conn.RemoteAddr(), r)
+		}
+	}()
 	defer conn.Close()
 
 	hijackedConn := hack.NewHijackClientHelloConn(conn)
@@ -212,6 +220,18 @@ func (server *Server) setupServe() {
 		// which net/http does not recognize as TLS, so it leaves Request.TLS nil
 		// (and X-Forwarded-Proto becomes "http"). Restore it from the metadata.
 		server.HTTPServer.Handler = withTLSState(server.HTTPServer.Handler)
+		// net/http calls the ConnState hook for StateNew on its accept loop and
+		// for StateClosed after its own recover, where a panic kills the process
+		if hook := server.HTTPServer.ConnState; hook != nil {
+			server.HTTPServer.ConnState = func(c net.Conn, state http.ConnState) {
+				defer func() {
+					if r := recover(); r != nil {
+						server.logf("panic in ConnState hook (%s): %v", c.RemoteAddr(), r)
+					}
+				}()
+				hook(c, state)
+			}
+		}
 		server.http1ConnChannelListener = hack.NewChannelListener(server.ctx)
 		go server.serveHTTP1()
 	}
